@@ -22,7 +22,8 @@ def main(nq, ne, maxlen, out):
             A, B = mk(a), mk(b)
             rows.append({'t': 'chan', 'a': list(a), 'b': list(b), 'eq': bool(A == B), 'eq_rev': bool(B == A),
                          'ne': bool(A != B), 'in_list': bool(A in [mk((nq + 7, 'ALL')), B])})
-    names = ['D%d' % (i + 1) if i % 2 == 0 else 'Z%d' % i for i in range(ne)]
+    # qubit names of which some are substrings of others (D1 / D10 / D11, Z1 / Z10): identity is the whole name
+    names = (['D1', 'Z1', 'D10', 'Z10', 'D11', 'Z11', 'D2', 'X1', 'X10'] + ['Q%d' % i for i in range(ne)])[:ne]
     edges = [(x, y) for x in range(ne) for y in range(ne) if x != y]
 
     def mke(e):
